@@ -184,7 +184,7 @@ class Generator:
             # include a trailing `;` that syn leaves outside a `let` stmt span? (syn includes it) – nothing to do
             wrap = True
             frag_has_exit = any(inside(r, span) for r in fn['returns'] + fn['tries'])
-            if frag_has_exit and st['depth'] != 1:
+            if frag_has_exit and st['depth'] != 1 and 'same-return-type' not in u.opts:
                 raise GenError(f'unsupported: stmts fragment of {u.fnpath} contains return/? but is not at function-body level')
         elif u.kind == 'loopbody':
             if re.fullmatch(r'\d+', u.sel[0]):
